@@ -13,8 +13,16 @@ import (
 // component (or infinite); a calendar window (months > 0, nsecs == 0) read
 // descending yields one wrong row instead of one row per month.
 func init() {
-	extend("C20", "descending-optimisation table (exhaustive): IsLastDescendingAggregateOptimization, evaluated abstractly on every combination of aggregate count {0,1,2}, aggregate type {last, other}, Window {nil, set}, WindowEvery and Every.Nsecs {0, finite, MaxInt64}, Every.Months {0, 1}, answers true only for a single `last` aggregate whose window is zero in nanoseconds AND months, or infinite.",
-		[]string{"./storage/reads/datatypes"}, func(p *core.Prog, r *core.Report, tier string) {
+	const note = "descending-optimisation table (exhaustive): IsLastDescendingAggregateOptimization, evaluated abstractly on every combination of aggregate count {0,1,2}, aggregate type {last, other}, Window {nil, set}, WindowEvery and Every.Nsecs {0, finite, MaxInt64}, Every.Months {0, 1}, answers true only for a single `last` aggregate whose window is zero in nanoseconds AND months, or infinite."
+	// C41 depends on the same decision: a windowed `last` that is mistaken for "no
+	// window" is read descending and yields one row instead of one per window.
+	extend("C41", note, []string{"./storage/reads", "./storage/reads/datatypes"}, descendingOptimisationTable)
+	extend("C20", note, []string{"./storage/reads/datatypes"}, descendingOptimisationTable)
+}
+
+func descendingOptimisationTable(p *core.Prog, r *core.Report, tier string) {
+	{
+		func() {
 			const rule = "descending-optimisation-table"
 			f := r.Need(p, "storage/reads", "IsLastDescendingAggregateOptimization")
 			dt := p.Pkg("storage/reads/datatypes")
@@ -81,5 +89,6 @@ func init() {
 			default:
 				r.Check(rows >= 100 && trues > 0, rule, f.String(), "rows:count", f.Pos(), fmt.Sprintf("%d rows enumerated, %d select the descending optimisation", rows, trues))
 			}
-		})
+		}()
+	}
 }
